@@ -91,6 +91,8 @@ ElabMethod(m, code) ==
      near |-> Str(Near(m.name)), shape_name |-> IsShapeName(m.name), ctxkind |-> m.ctxkind, resp |-> m.resp, explicit |-> m.explicit, sig |-> m.sig, ret |-> m.ret]
 ElabPart(part, base) ==
     [id |-> part.id,
+     \* attributes forwarded to the message types of this part (`#[sv::msg_attr(kind, ..)]`): they land on the type and leave the names alone
+     mattrs |-> IF "mattrs" \in DOMAIN part THEN part.mattrs ELSE <<>>,
      methods |-> [j \in 1..Len(part.methods) |-> ElabMethod(part.methods[j], base + j)],
      lists |-> [exec |-> NameList(part, "exec"), query |-> NameList(part, "query"), sudo |-> NameList(part, "sudo")]]
 Elab(p) ==
@@ -129,6 +131,8 @@ QRespJson(m) ==      \* the JSON encoding of the value the echo query handler re
       [] m.ret = "Tup2"    -> JArr(<<QObj(m, FALSE), JNum(m.code)>>)        \* (QResp, u64)
       [] m.ret = "VecTup1" -> JArr(<<JArr(<<JNum(m.code)>>)>>)              \* Vec<(u64,)> with one element
       [] m.ret = "ArrB"    -> JArr(<<QObj(m, TRUE), QObj(m, TRUE)>>)        \* [QRespB; 2]
+      [] m.ret = "Bin"     -> [t |-> "s", v |-> "Ymlu"]                     \* Binary holding the bytes "bin": a JSON string in base64
+      [] m.ret = "Str"     -> [t |-> "s", v |-> m.name]                     \* String holding the handler's name
       [] OTHER             -> QObj(m, FALSE)
 
 (* ---- JSON shape of messages (C01) -------------------------------------- *)
